@@ -6,15 +6,17 @@ uses + - * / max min abs on them, so every output is a rational with a small den
 
     |x - p/q| <= TOL * max(1, |x|)   and   q <= QMAX
 
-Two distinct rationals with denominators <= QMAX differ by at least 1/QMAX^2 = 1e-12 > 2*TOL
-(1/QMAX^2 = 4e-12 > 2*TOL).
+Two distinct rationals with denominators <= QMAX differ by at least 1/QMAX^2 = 1.1e-9 >> 2*TOL.
 A value that cannot be certified is returned as NAR (<<0, 0>> on the TLA+ side), never guessed.
 """
 from fractions import Fraction
 import math
 
-TOL = 1e-12
-QMAX = 500_000
+TOL = 3e-14            # about 128 ulp: outputs of the builders are a few floating-point operations deep
+QMAX = 30_000
+# A float whose true value is NOT a rational with denominator <= QMAX is lifted by coincidence with
+# probability ~ 0.61 * QMAX^2 * TOL (density of reduced fractions times the tolerance window),
+# here 1.6e-5; (QMAX, TOL) = (5e5, 1e-12) gave 15 % and produced false "exact" values.
 NAR = (0, 0)           # "not a (small) rational"
 INT_LIMIT = 2**31 - 1
 
